@@ -232,7 +232,7 @@ def check_unfocus(case, ctx):
         if my == mx:
             Y = U.cvec(my) * wo.dx
             ref = (np.exp(2j * np.pi * np.outer(Y, xi_y) / (lam * efl)) @ Fn @ np.exp(2j * np.pi * np.outer(xi_x, X) / (lam * efl))) * norm
-            U.check_close(g, ref, 0, 'unfocus:tilt', 'FFT unfocus of impulse at %r in %s' % ([iy, ix], fshape), atol=(1e-4 if fdt == 'float32' else 1e-9) * float(np.abs(Fn).sum()) * norm)
+            U.check_close(g, ref, 0, 'unfocus:tilt', 'FFT unfocus of impulse at %r in %s' % ([iy, ix], fshape), atol=(2e-3 if fdt == 'float32' else 1e-9) * float(np.abs(Fn).sum()) * norm)
         else:
             # x axis only: project along y first (sum over rows of g equals the xi_y = 0 ... not available); use the row
             # of the *input* through xi_y=0 instead: an impulse on that row gives a field constant along y
@@ -240,7 +240,7 @@ def check_unfocus(case, ctx):
             if iy == my // 2 and not case['second']:
                 ref_row = (Fn[iy:iy + 1, :] @ np.exp(2j * np.pi * np.outer(xi_x, X) / (lam * efl))) * norm
                 U.check_close(g, np.broadcast_to(ref_row, g.shape), 0, 'unfocus:tilt:x-only', 'FFT unfocus non-square, impulse on the xi_y=0 row',
-                              atol=(1e-4 if fdt == 'float32' else 1e-9) * norm)
+                              atol=(2e-3 if fdt == 'float32' else 1e-9) * norm)
         return
     py_, px_ = pshape
     if via == 'wavefront':
@@ -271,7 +271,7 @@ def check_unfocus(case, ctx):
             Y = U.cvec(py_) * dxp - sgn * sh[1]
             ref = (np.exp(2j * np.pi * np.outer(Y, xi_y) / (lam * efl)) @ Fn @ np.exp(2j * np.pi * np.outer(xi_x, X) / (lam * efl))) * norm
             errs[sgn] = float(np.abs(np.abs(g) - np.abs(ref)).max()) if np.all(np.isfinite(g)) else float('inf')
-        ctx.require(min(errs.values()) <= (1e-4 if fdt == 'float32' else 1e-9) * sc, 'unfocus_fixed_sampling:' + route + ':shift',
+        ctx.require(min(errs.values()) <= (2e-3 if fdt == 'float32' else 1e-9) * sc, 'unfocus_fixed_sampling:' + route + ':shift',
                     '%s unfocus of %s onto %s (dx %.6g mm) with shift %r mm: modulus is off the explicit inverse sum at the shifted coordinates by %.3g / %.3g (scale %.3g)' % (
                         route, fshape, (py_, px_), dxp, sh, errs[1], errs[-1], sc))
         return
@@ -280,7 +280,7 @@ def check_unfocus(case, ctx):
     ref = (np.exp(2j * np.pi * np.outer(Y, xi_y) / (lam * efl)) @ Fn @ np.exp(2j * np.pi * np.outer(xi_x, X) / (lam * efl))) * norm
     U.check_close(g, ref, 0, 'unfocus_fixed_sampling:' + route + (':nonsquare-input' if my != mx else ''),
                   '%s unfocus of impulse at %r in %s (dx %.4g um) onto %s (dx %.6g mm)' % (route, [iy, ix], fshape, dxf, (py_, px_), dxp),
-                  atol=(1e-4 if fdt == 'float32' else 1e-9) * float(np.abs(Fn).sum()) * norm)
+                  atol=(2e-3 if fdt == 'float32' else 1e-9) * float(np.abs(Fn).sum()) * norm)
 
 
 def strat_scalar(tier):
